@@ -16,6 +16,7 @@ from __future__ import annotations
 
 import builtins
 import itertools
+import os
 import re
 import sys
 import time
@@ -482,6 +483,51 @@ def named_case(item) -> Dict[str, Any]:
     return out
 
 
+# -- second engine: CrossHair on the merge step (thorough tier) ---------------------------------------------------------
+XH_POSTS = {
+    'merge_variable_mentions': lambda a, r: r == (min(a[0], a[2]), max(a[1], a[3]), max(a[4], a[5])),
+    'merge_is_commutative': lambda a, r: r is True,
+    'merge_same_kind': lambda a, r: r == (min(a[0], a[2]), max(a[1], a[3]), a[4]),
+}
+
+
+def crosshair_case() -> Dict[str, Any]:
+    """`crosshair check` over xh/combine_contract.py (contracts on the real Symbol.combine).  A counterexample is replayed by
+    calling the contract function on the reported arguments; 'Not confirmed' / 'Unable to meet precondition' are
+    inconclusive."""
+    import ast
+    import importlib
+    import os
+    import subprocess
+    out: Dict[str, Any] = {'confirmed': 0, 'bad': [], 'inconclusive': [], 'lines': []}
+    here = os.path.dirname(os.path.dirname(os.path.abspath(__file__)))
+    p = subprocess.run([sys.executable, '-m', 'crosshair', 'check', '--report_all', '--per_condition_timeout', '60', 'xh/combine_contract.py'],
+                       cwd=here, capture_output=True, text=True, timeout=1500, env=dict(os.environ))
+    mod = importlib.import_module('xh.combine_contract')
+    for ln in (p.stdout + p.stderr).splitlines():
+        if 'combine_contract.py' not in ln:
+            continue
+        out['lines'].append(ln.split('combine_contract.py:')[-1][:200])
+        if 'Confirmed over all paths' in ln:
+            out['confirmed'] += 1
+            continue
+        m = re.search(r'when calling (\w+)\((.*?)\) \(which', ln)
+        if m and m.group(1) in XH_POSTS:
+            args = ast.literal_eval('(' + m.group(2) + ',)')
+            try:
+                got = getattr(mod, m.group(1))(*args)
+                ok = XH_POSTS[m.group(1)](args, got)
+            except Exception as e:  # noqa: BLE001
+                got, ok = f'{type(e).__name__}: {e}', False
+            out['bad'].append({'what': f'CrossHair: {m.group(1)}{args} returns {got!r}, which breaks its contract', 'replayed': not ok,
+                               'values': {'function': m.group(1), 'args': list(args), 'returns': repr(got)}})
+        else:
+            out['inconclusive'].append(ln.split('combine_contract.py:')[-1][:200])
+    if not out['lines']:
+        out['inconclusive'].append('crosshair produced no verdict: ' + (p.stderr or p.stdout)[-300:])
+    return out
+
+
 def dispatch(item):
     kind, payload = item
     return {'merge': merge_case, 'lagsleads': lagslead_case, 'range': range_case, 'program': program_case,
@@ -555,6 +601,16 @@ def main() -> int:
                 rep.violation(f"{r['kind']}:{r['item'][:80]}:{b['what'][:60]}", f"{r['item']}: {b['what']}", {'case': r['item'], 'values': b.get('values')})
             else:
                 rep.error(f"counterexample did not reproduce: {r['item']}: {b['what']} {b.get('values')}")
+    xh = None
+    if tier == 'thorough' or os.environ.get('C03_CROSSHAIR'):
+        xh = crosshair_case()
+        for b in xh['bad']:
+            if b['replayed']:
+                rep.violation('crosshair:' + b['what'][:80], b['what'], {'case': 'crosshair', 'values': b['values']})
+            else:
+                rep.error(f"CrossHair counterexample did not reproduce: {b['what']}")
+        for ln in xh['inconclusive']:
+            rep.error(f'CrossHair inconclusive: {ln}')
     twin_rep = []
     for t in twins:
         hit = 'harness_error' not in t and any(b['replayed'] for b in t['bad'])
@@ -562,6 +618,10 @@ def main() -> int:
         if not hit:
             rep.error(f'reachability twin not detected: {t}')
     rep.assumptions = sorted(assumptions)
+    if xh is not None:
+        rep.coverage['second_engine'] = {'tool': 'crosshair-tool 0.0.110 (crosshair check --report_all --per_condition_timeout 60)',
+                                         'contracts': 'xh/combine_contract.py: 3 functions, 7 postconditions over unbounded integers on the real Symbol.combine',
+                                         'confirmed_over_all_paths': xh['confirmed'], 'verdicts': xh['lines']}
     rep.coverage.update({
         'programs': n_prog,
         'disagreements_checked': disagreements,
